@@ -31,6 +31,7 @@ type zzSchema struct {
 	Unique     bool
 	Props      []zzProp
 	AddlFalse  bool
+	Ref        int // 1 + index of the named schema this node refers to ($ref, possibly recursive); 0: none
 }
 
 type zzProp struct {
@@ -79,6 +80,7 @@ type builder struct {
 	extra bool // the text has a member the schema does not declare
 	nbool int
 	nint  int
+	depth int // nesting depth through $ref nodes (recursive schemas are unfolded at most twice)
 }
 
 func (b *builder) lit(s string) { b.out = append(b.out, s...) }
@@ -135,6 +137,11 @@ func (b *builder) strTok() aval {
 
 // value builds an instance of s; mutate > 0 selects a deliberately wrong type at this position.
 func (b *builder) value(s *zzSchema, wrongType bool) aval {
+	if s.Ref != 0 {
+		b.depth++
+		defer func() { b.depth-- }()
+		s = zzSchemas[s.Ref-1]
+	}
 	if wrongType {
 		if s.Type == "string" {
 			return b.intTok()
@@ -169,6 +176,9 @@ func (b *builder) value(s *zzSchema, wrongType bool) aval {
 		return aval{kind: kBool, b: v}
 	case "array":
 		n := b.p.next(4)
+		if s.Items.Ref != 0 && b.depth >= 2 {
+			n = 0 // recursion bound
+		}
 		b.lit("[")
 		var items []aval
 		for i := 0; i < n; i++ {
@@ -194,6 +204,9 @@ func (b *builder) value(s *zzSchema, wrongType bool) aval {
 			present := true
 			if !pr.Required {
 				present = b.p.next(2) == 0
+			}
+			if pr.S.Ref != 0 && b.depth >= 2 {
+				present = false // recursion bound (recursive members are optional in the matrix)
 			}
 			if mut == 1 && i == target {
 				present = false
@@ -261,6 +274,9 @@ func avalEq(x, y aval) bool {
 }
 
 func refValid(s *zzSchema, v aval) bool {
+	if s.Ref != 0 {
+		s = zzSchemas[s.Ref-1]
+	}
 	if v.kind == kNull {
 		return s.Nullable
 	}
@@ -376,6 +392,17 @@ func refValid(s *zzSchema, v aval) bool {
 // absentOptionalArray: some optional member of array type with minItems >= 1 is absent from the
 // instance (at any object level) - region of the recorded finding C03/absent-optional-array-minitems.
 func absentOptionalArray(s *zzSchema, v aval) bool {
+	if s.Ref != 0 {
+		s = zzSchemas[s.Ref-1]
+	}
+	if s.Type == "array" && v.kind == kArr {
+		for _, it := range v.arr {
+			if absentOptionalArray(s.Items, it) {
+				return true
+			}
+		}
+		return false
+	}
 	if s.Type != "object" || v.kind != kObj {
 		return false
 	}
@@ -387,7 +414,11 @@ func absentOptionalArray(s *zzSchema, v aval) bool {
 			}
 		}
 		if found < 0 {
-			if !pr.Required && pr.S.Type == "array" && pr.S.MinItems != nil && *pr.S.MinItems >= 1 {
+			ps := pr.S
+			if ps.Ref != 0 {
+				ps = zzSchemas[ps.Ref-1]
+			}
+			if !pr.Required && ps.Type == "array" && ps.MinItems != nil && *ps.MinItems >= 1 {
 				return true
 			}
 			continue
